@@ -188,6 +188,10 @@ func OneWinnerRace(b *Bucket, key string, absent bool, racers []Racer, r *rng.R)
 // RivalKinds are the writes placed inside a read-modify-write window.
 var RivalKinds = []string{"Set", "Delete", "SetXattrs", "WriteCas", "Incr-like-Set", "WriteSubDoc", "Remove+Set"}
 
+// LiveRivalKinds are further rivals, placed only inside windows that opened on a live document: the rarely used
+// entry points must produce a new version (a new CAS) just like the common ones, or the loop cannot notice them.
+var LiveRivalKinds = []string{"DeleteSubDocPaths", "Set+PreserveExpiry"}
+
 func doRival(c *rosmar.Collection, key, kind, tok string) error {
 	switch kind {
 	case "Set", "Incr-like-Set":
@@ -211,6 +215,10 @@ func doRival(c *rosmar.Collection, key, kind, tok string) error {
 	case "Remove+Set":
 		_ = c.Delete(key)
 		return c.Set(key, 0, nil, []byte(fmt.Sprintf(`{"l":[],"rival":%q}`, tok)))
+	case "Set+PreserveExpiry":
+		return c.Set(key, 0, &sgbucket.UpsertOptions{PreserveExpiry: true}, []byte(fmt.Sprintf(`{"l":[],"rival":%q}`, tok)))
+	case "DeleteSubDocPaths":
+		return c.DeleteSubDocPaths(ctxBG, key, "_x")
 	}
 	return nil
 }
@@ -296,7 +304,7 @@ func UpdateWindow(b *Bucket, key, pre, rival string) (WindowResult, string) {
 		return res, "the Update's own effect is missing from the final document"
 	}
 	switch rival {
-	case "Set", "WriteCas", "Incr-like-Set", "Remove+Set":
+	case "Set", "WriteCas", "Incr-like-Set", "Remove+Set", "Set+PreserveExpiry":
 		if !bodyHas(&res.Final, "rival", "R") {
 			return res, fmt.Sprintf("the rival %s's write was lost: Update overwrote it with a value computed from the older version", rival)
 		}
@@ -308,6 +316,10 @@ func UpdateWindow(b *Bucket, key, pre, rival string) (WindowResult, string) {
 		// resurrecting a tombstone legitimately drops its xattrs, so this is only checked on a live document
 		if pre == "live" && res.Final.GX["_x"] != `["R"]` {
 			return res, fmt.Sprintf("the rival SetXattrs was lost: _x=%s", res.Final.GX["_x"])
+		}
+	case "DeleteSubDocPaths":
+		if _, back := res.Final.GX["_x"]; back {
+			return res, fmt.Sprintf("the rival DeleteSubDocPaths was lost: _x=%s is back", res.Final.GX["_x"])
 		}
 	}
 	return res, ""
@@ -352,7 +364,7 @@ func WriteUpdateWindow(b *Bucket, key, pre, rival string) (WindowResult, string)
 		return res, fmt.Sprintf("the update's own xattr effect is missing: _x=%s", res.Final.GX["_x"])
 	}
 	switch rival {
-	case "Set", "WriteCas", "Incr-like-Set", "Remove+Set":
+	case "Set", "WriteCas", "Incr-like-Set", "Remove+Set", "Set+PreserveExpiry":
 		if !bodyHas(&res.Final, "rival", "R") {
 			return res, fmt.Sprintf("the rival %s's body was lost", rival)
 		}
@@ -363,6 +375,10 @@ func WriteUpdateWindow(b *Bucket, key, pre, rival string) (WindowResult, string)
 	case "SetXattrs":
 		if len(l) != 2 || l[0] != "R" {
 			return res, fmt.Sprintf("the rival SetXattrs was lost: _x=%s", res.Final.GX["_x"])
+		}
+	case "DeleteSubDocPaths":
+		if len(l) != 1 {
+			return res, fmt.Sprintf("the rival DeleteSubDocPaths removed _x inside the window, yet the stored list was built on the removed one: _x=%s", res.Final.GX["_x"])
 		}
 	}
 	return res, ""
@@ -408,7 +424,7 @@ func SubdocWindow(b *Bucket, key, pre, rival string, explicitCas, insert bool) (
 	}
 	rivalIntact := func() string {
 		switch rival {
-		case "Set", "WriteCas", "Incr-like-Set", "Remove+Set":
+		case "Set", "WriteCas", "Incr-like-Set", "Remove+Set", "Set+PreserveExpiry":
 			if !bodyHas(&res.Final, "rival", "R") {
 				return fmt.Sprintf("the rival %s's write was lost", rival)
 			}
@@ -419,6 +435,10 @@ func SubdocWindow(b *Bucket, key, pre, rival string, explicitCas, insert bool) (
 		case "SetXattrs":
 			if pre == "live" && res.Final.GX["_x"] != `["R"]` {
 				return "the rival SetXattrs was lost"
+			}
+		case "DeleteSubDocPaths":
+			if _, back := res.Final.GX["_x"]; back {
+				return "the rival DeleteSubDocPaths was lost: _x is back"
 			}
 		case "Delete":
 			// with cas==0 the retry re-creates the document; nothing of the rival remains to check
@@ -626,7 +646,7 @@ func UpdateDeleteWindow(b *Bucket, key, pre, rival string) (WindowResult, string
 		return res, fmt.Sprintf("Update(delete) failed with %s after a rival %s committed inside its read-write window", res.Err, rival)
 	}
 	switch rival {
-	case "Set", "WriteCas", "Incr-like-Set", "Remove+Set", "WriteSubDoc":
+	case "Set", "WriteCas", "Incr-like-Set", "Remove+Set", "Set+PreserveExpiry", "WriteSubDoc":
 		// the callback would have cancelled had it been shown the rival's version: the rival's document must survive
 		if res.Final.RawErr != "" {
 			return res, fmt.Sprintf("Update(delete) deleted the rival %s's document although its callback was only shown the older version (calls=%d)", rival, res.Calls)
